@@ -219,7 +219,7 @@ PROPS = {
     ),
     "C07": dict(
         suites=[("e2e", 72, 1400)],
-        extracted=["net.inAddrFromNeBytes", "net.replySourceFromSendFrom", "dns.muxFreshId", "dns.muxRestoresCallerId", "dns.muxSendIgnoresGoneWaiter",
+        extracted=["net.inAddrFromNeBytes", "net.replySourceFromSendFrom", "dns.muxFreshId", "dns.muxRestoresCallerId", "dns.muxSendIgnoresGoneWaiter", "dns.muxConnectResetsTimers", "dns.muxIdleSeconds", "dns.timeoutUpdatesClamped",
                    "dns.retryLimit", "dns.MIN_DNS_TIMEOUT", "dns.MAX_DNS_TIMEOUT"],
         rule="the real DnsService (UDP and TCP listeners on 127.0.0.1, [::1] and a dual-stack [::] socket; ACL, rate limiter, router, cache, "
              "out-query) in-process on loopback in a private network namespace, against a scripted upstream (UDP and TCP on 127.0.0.77:53): "
